@@ -100,6 +100,16 @@ CHECKS["C19"] = dict(
          "the box enlarged by 2) with the model over dimensions 1-2 x bounds in -3..3, sampled dimensions 3-4.",
     technique="Lean 4 induction on the dimension list (row-major box, ravel/clip) + exhaustive differential check of the real create_range_space",
     ref="§8 C19")
+CHECKS["C17"] = dict(
+    text="Theorems: before normalisation P[a,s,s'] = sum of the probabilities of exactly the events whose successor index is s' (several events "
+         "accumulate); R[s,a] = sum_e p r; a ValueError is raised iff the largest |row sum - 1| exceeds the tolerance, and it names the first "
+         "maximiser in (action, state) order with its row sum; on success every deviation is <= tol and every returned row with positive mass "
+         "sums to exactly 1 (raw row / row sum); if raw rows sum to 1 and successors are valid rows, R[s,a] + gamma sum_s' P[a,s,s'] V[s'] = the "
+         "functional action value for every V, so both descriptions have the same Bellman operator and optimal values. Tie: real matrix builder "
+         "on tabular problems (perturbed rows x tolerances, single-event, array-valued probabilities) and small shipped problems vs the model; "
+         "exact independent solve of the returned matrices.",
+    technique="Lean 4 theorems over Model/Matrices.lean (scatter-add as filtered sums, summation exchange) + differential check of the real builder",
+    ref="§8 C17")
 PENDING = {}
 
 
